@@ -151,6 +151,13 @@ Theorem lin_check_agrees_with_brute : forall init h, lin_check init h = lin_brut
 Proof. exact lin_check_brute_agree. Qed.
 Print Assumptions lin_check_agrees_with_brute.
 
+(* the order in which a history is listed does not matter (the harness lists each window in
+   the order of the linearization its own search found, which only shortens Coq's search) *)
+Theorem lin_check_listing_irrelevant : forall init h h',
+  Permutation h h' -> lin_check init h = lin_check init h'.
+Proof. exact lin_check_perm_lemma. Qed.
+Print Assumptions lin_check_listing_irrelevant.
+
 (* ---- non-vacuity ---- *)
 
 (* the keyed store (keys are numbers, an operation = a key and an atomic list of primitives)
